@@ -79,15 +79,16 @@ CHECKS = {'C09': {'category': 'translation_validation',
                       'runs + end-of-case count oracle for HP and DHP (destruction, help_scan adoption, DHP block growth)',
          'text': "Every retired object is disposed at most once and only after retirement (theorems over Algo/HP/Protocol, tied by trace replay as in C01); 'exactly once no later than destruction' "
                  "for detach/help_scan/destruction and for DHP's block lists is decided on explored schedules by counting disposer calls per object at the end of every case."},
- 'C06': {'category': 'translation_validation',
-         'note': 'SC interleavings only (threads serialised by a baton at every atomic operation); explored schedules only (seeded random, PCT, exhaustive <=1/<=2 preemptions of small programs); '
-                 'memory orders not modelled; Lean kernel + propext/Classical.choice/Quot.sound for the checker theorem.',
-         'technique': 'Lean 4: histories of the real containers under a deterministic scheduler judged against the Lean sequential specification by a linearizability checker proved sound and '
-                      'complete in Lean',
-         'text': 'Every queue variant (MSQueue, MoirQueue, BasketQueue, OptimisticQueue, RWQueue, FCQueue; intrusive and container; HP/DHP; item counter, seq-cst) is run. The executable Lean model '
-                 'here is the sequential specification (Spec.fifo) plus the definition of linearizability; the proved theorem is that the checker decides it exactly, so a history the real code '
-                 "produces is accepted iff it is linearizable. The containers' algorithms themselves are not yet modelled step by step: the claim is validation of every explored execution of the "
-                 'real code against the model, not a proof over all schedules. '},
+ 'C06': {'category': 'proof',
+         'technique': 'Lean 4: atomic-step machines of MSQueue, MoirQueue, RWQueue and OptimisticQueue, each proved linearizable to the FIFO specification for all schedules (hindsight point of the '
+                      'empty dequeue included) + atomic-trace conformance of each + generic flat-combining linearizability theorem instantiated for FCQueue + histories of every queue variant judged '
+                      'by the verified checker',
+         'text': 'msqueue_linearizable, C06_moir_linearizable, C06_rwqueue_linearizable, C06_optimistic_linearizable (Herlihy-Wing with pending operations; no invention, no duplication, empty means '
+                 "empty at an instant inside the call) hold for any number of threads; each real queue is replayed against its machine. FCQueue without elimination: C06_fcqueue_linearizable (C10's "
+                 "generic theorem); its elimination pass: fixed-batch theorems tied by the differential run. BasketQueue has no machine: its histories (and everybody's) are judged against Spec.fifo "
+                 'on explored schedules, including CAS-biased 4-thread runs and a sequential drain at the end of every history.',
+         'note': 'SC interleavings only (threads serialised by a baton at every atomic operation); memory orders not modelled; explored schedules only for the history/oracle/trace ties; Lean kernel '
+                 '+ propext/Classical.choice/Quot.sound. Garbage-collected heap in the machines (no node reuse: what C01/C02 provide); weak CAS never fails spuriously.'},
  'C07': {'category': 'proof',
          'technique': 'Lean 4: atomic-step machine of VyukovMPMCCycleQueue enqueue/dequeue proved linearizable to the bounded FIFO for all schedules, thread counts and capacities 2^k (fixed '
                       'linearization points, full/empty instants, no-overwrite, cell ownership) + atomic-trace conformance of the real queue against that machine + histories judged by the verified '
@@ -128,26 +129,27 @@ CHECKS = {'C09': {'category': 'translation_validation',
                  'against Spec.mapConc / Spec.map on explored schedules.',
          'note': 'SC interleavings only (threads serialised by a baton at every atomic operation); memory orders not modelled; explored schedules only for the history/oracle/trace ties; Lean kernel '
                  '+ propext/Classical.choice/Quot.sound. Garbage-collected heap in the machines (no node reuse: what C01/C02 provide).'},
- 'C14': {'category': 'translation_validation',
-         'technique': 'Lean 4: SplitListSet machine (dynamic bucket table, lazy recursive bucket initialisation, growth) proved linearizable for all schedules and hash functions, instantiated with '
-                      'the C27 split-order theorems + atomic-trace conformance + locality theorem for bucket-array tables (MichaelHashSet) + histories of MichaelHashSet/Map, SplitListSet/Map, '
-                      'FeldmanHashSet/Map judged by the verified checker',
-         'text': 'C14_splitlist_linearizable, C14_splitlist_bucket_table, C14_splitlist_bucket_sees, C14_splitlist_growth, C14_cfg64_hyp hold for every schedule, thread count, key set and hash '
-                 'functor; the real split list is replayed against the machine in three hash modes. MichaelHashSet over MichaelList / LazyList: locality (Base/Locality) + '
-                 'C14_table_of_linearizable_buckets + the C13 list theorems, at the level of histories. Feldman sets / maps (multi-level array, array-node expansion) have no machine: decided by '
-                 'histories on explored schedules, including colliding hashes and the *_with overloads.',
+ 'C14': {'category': 'proof',
+         'technique': 'Lean 4: SplitListSet machine (dynamic bucket table, lazy recursive bucket initialisation, growth) and FeldmanHashSet machine (multi-level array, slot expansion) proved '
+                      'linearizable for all schedules, instantiated with the C27 / C28 theorems about the real key functions + atomic-trace conformance of both + locality theorem for bucket-array '
+                      'tables (MichaelHashSet) + histories of all hash set / map variants judged by the verified checker',
+         'text': 'C14_splitlist_linearizable, C14_splitlist_bucket_table, C14_splitlist_bucket_sees, C14_splitlist_growth, C14_cfg64_hyp; C14_feldman_linearizable, C14_feldman_expand_publish (an '
+                 'expansion changes no lookup; the moved item is in the new array node before it is published), C14_feldman_on_path, C14_feldman_no_duplicate_keys hold for every schedule, thread '
+                 'count and key set (Feldman under PathHyp: equal-length injective hash paths, which C28 proves of the real splitter). Both real containers are replayed against their machines. '
+                 'MichaelHashSet over MichaelList / LazyList: locality (Base/Locality) + C14_table_of_linearizable_buckets + the C13 list theorems, at the level of histories. All variants (RCU '
+                 'forms, maps, split lists over Lazy / Iterable, colliding hashes, the *_with overloads) are also decided by histories on explored schedules.',
          'note': 'SC interleavings only (threads serialised by a baton at every atomic operation); memory orders not modelled; explored schedules only for the history/oracle/trace ties; Lean kernel '
-                 '+ propext/Classical.choice/Quot.sound. FeldmanHashSet/Map: no algorithm model.'},
+                 '+ propext/Classical.choice/Quot.sound. Split lists over LazyList / IterableList, static bucket table, Feldman maps and RCU forms: histories only.'},
  'C15': {'category': 'translation_validation',
-         'note': 'SC interleavings only (threads serialised by a baton at every atomic operation); explored schedules only (seeded random, PCT, exhaustive <=1/<=2 preemptions of small programs); '
-                 'memory orders not modelled; Lean kernel + propext/Classical.choice/Quot.sound for the checker theorem.',
-         'technique': 'Lean 4: histories of the real containers under a deterministic scheduler judged against the Lean sequential specification by a linearizability checker proved sound and '
-                      'complete in Lean',
-         'text': '27 variants (SkipListSet/Map, EllenBinTree set/map, BronsonAVLTreeMap value/pointer with injecting and pool monitors; HP/DHP/RCU). The executable Lean model here is the sequential '
-                 'specification (Spec.mapRelaxed) plus the definition of linearizability; the proved theorem is that the checker decides it exactly, so a history the real code produces is accepted '
-                 "iff it is linearizable. The containers' algorithms themselves are not yet modelled step by step: the claim is validation of every explored execution of the real code against the "
-                 "model, not a proof over all schedules. extract_min/extract_max: returned key present and empty only if empty are in the specification; 'no key present throughout is smaller/larger' "
-                 'is a real-time oracle over the history.'},
+         'technique': 'Lean 4: SkipListSet machine of the repaired code tied by atomic-trace conformance with a structural predicate evaluated on every replayed state; machine-checked counterexample '
+                      'for the code before commit b95a3c3; histories of skip lists, EllenBinTree and BronsonAVLTreeMap judged by the verified checker against the (relaxed min/max) map specification '
+                      '+ real-time min/max oracle',
+         'text': 'Algo/SkipList models towers, helping find_position, level-by-level insertion, try_remove_at and the fast / slow find paths; theorems: marked words frozen, level 0 marked only by '
+                 "the successful erase, the fast path answers 'found' only after reading an unmarked level-0 link; without that mark test the machine has a complete run whose history is proved "
+                 'non-linearizable (the defect this tie found and commit b95a3c3 repaired). Linearizability of the repaired machine for all schedules is not proved. All tree variants are decided by '
+                 'histories on explored schedules; extract_min / extract_max are judged by Spec.mapRelaxed plus a real-time oracle (no key present throughout the call is smaller / larger).',
+         'note': 'SC interleavings only (threads serialised by a baton at every atomic operation); memory orders not modelled; explored schedules only for the history/oracle/trace ties; Lean kernel '
+                 '+ propext/Classical.choice/Quot.sound. EllenBinTree and BronsonAVLTreeMap: no algorithm model.'},
  'C16': {'category': 'translation_validation',
          'technique': 'Lean 4: StripedSet machine for the striping and refinable mutex policies proved linearizable to the map specification across resizes for all schedules + atomic-trace '
                       'conformance of the real StripedSet + histories of every striped / cuckoo variant judged by the verified linearizability checker',
